@@ -191,13 +191,13 @@ Definition dur_attr (l : str) (attrs : list xattr) : option (option tdur) :=
                           | _, _ => None
                           end) (attr_vals l attrs) (Some None).
 
-(* "Remove items identation": the inner XML is split on \n, every piece TrimLeft'ed, and joined.  On the
+(* "Remove items identation": the inner XML is split on \n, every piece TrimLeft'ed (XML white space), and joined.  On the
    tree: inside a text every piece after a line break loses its leading white space; the very first text
    of the paragraph also does (it starts the first piece).  Text after a tag never starts a piece. *)
 Definition strip_text (first : bool) (s : str) : str :=
   match split_byte 10 s with
   | [] => []
-  | p0 :: rest => (if first then trim_left p0 else p0) ++ concat (map trim_left rest)
+  | p0 :: rest => (if first then trim_left_xml p0 else p0) ++ concat (map trim_left_xml rest)
   end.
 Fixpoint strip_node (n : xnode) : xnode :=
   match n with
@@ -226,7 +226,7 @@ Fixpoint items_of (kids : list xnode) : option (list initem) :=
   | XText s :: r =>
     match items_of r with
     | None => None
-    | Some l => Some (match trim_space s with [] => l | _ => mkIn [] [] no_attrs s :: l end)
+    | Some l => Some (if blank_xml s then l else mkIn [] [] no_attrs s :: l)
     end
   | XElem nm a ks :: r =>
     match tt_read_attrs a, items_of r with
